@@ -2,7 +2,7 @@
 import ast
 
 from .. import scales
-from ..core import AnalysisError, U, bind_call, fold_int, inline, path_facts, paths_of, positional_params
+from ..core import strip_noop_calls, AnalysisError, U, bind_call, fold_int, inline, path_facts, paths_of, positional_params
 from ..registries import DTYPE_RANGE, qtype_table
 
 TITLE = "Scale selection is non-saturating, full-range and local to its axis/group"
@@ -247,7 +247,7 @@ def run(chk):
     for p in paths_of(qw):
         if p.end[0] != "return" or path_facts(p).get(f"{qt}.bits == 8") is not False:
             continue
-        e = p.end[1]
+        e = strip_noop_calls(p.end[1]) if p.end[1] is not None else None  # detach / clone / contiguous of the scale do not change what is quantized
         site = f"{mi_q.rel}:{p.end[2]}"
         ok = isinstance(e, ast.Call) and U(e.func) == "AffineQuantizer.apply" and len(e.args) == 6
         if ok:
@@ -275,7 +275,7 @@ def run(chk):
         f = path_facts(p)
         if p.end[0] == "return" and f.get(f"{qt}.bits == 8") is True and any(k.endswith(f"{t}.shape[{ax}] == 1") and v is True for k, v in f.items()):
             n6 += 1
-            e = p.end[1]
+            e = strip_noop_calls(p.end[1]) if p.end[1] is not None else None  # detach / clone / contiguous of the scale do not change what is quantized
             a = [U(x) for x in e.args] if isinstance(e, ast.Call) else []
             ok = len(a) == 4 and a[2] == "None" and a[3].endswith(", None)")
             chk.require("C03.R6", f"{mi_q.rel}:{p.end[2]}", ok, f"axis of size 1: optimizer and quantizer are called per-tensor ({a[2:]})", "quantize_weight", "size-1 axis rewrite", "a weight with a single output feature")
